@@ -148,9 +148,17 @@ func c12Trees(c *vrep.Ctx) {
 				r.Note = map[string]interface{}{"skip": true}
 				return
 			}
-			if f.name == "big1m.txt" && (sp.name != "absolute" || leaf != leaves[0] || len(files) > 2) {
-				r.Note = map[string]interface{}{"skip": true}
-				return
+			if f.name == "big1m.txt" {
+				ok := sp.name == "absolute" && leaf == leaves[0] && len(files) <= 2
+				for _, g := range files {
+					if g.name != f.name && g.depth != 3 {
+						ok = false // its partner, if any, sits at variant depth too
+					}
+				}
+				if !ok {
+					r.Note = map[string]interface{}{"skip": true}
+					return
+				}
 			}
 		}
 		n++
